@@ -123,7 +123,8 @@ def strat_for(kind):
         return st.builds(
             lambda a, dev_id, key, sess, ts, ll, salt: {"kind": kind, "args": a, "device_id": dev_id, "key": key,
                                                         "session": sess, "ts": ts, "login_len": ll, "salt": salt},
-            gen.op_args(kind).map(_resolvable), gen.device_ids, gen.keys_int, gen.sessions, gen.timestamps, gen.login_lens,
+            gen.op_args(kind).map(_resolvable), gen.device_ids, gen.keys_int, gen.sessions,
+            gen.timestamps if kind == "create_schedule" else gen.timestamps_wide, gen.login_lens,
             st.integers(1, 200),
         )
     return build
